@@ -95,7 +95,7 @@ def make_pages(p, a, sizes):
             k += 1
         pg.total = 100 + j
         if j < len(sizes) - 1:
-            pg.next_page_token = f'tok{j + 1}'
+            pg.next_page_token = 'cursor-9' if a.get('tokens') == 'constant' else f'tok{j + 1}'
         pages.append((pg, items))
         all_items += items
     return pages, all_items
